@@ -49,6 +49,15 @@ def gen_inputs(ctx):
                 out.append(("Generate", inp, ("generate", net, acct in (0, 2 ** 31 - 1), max(0, en - st), st > en, "seed" in src)))
             out.append(("Wasabi", dict(src, net=net), ("wasabi", net)))
             out.append(("Bip85Data", dict(src, net=net), ("bip85data", net)))
+    # passphrases taken from the library's OWN string literals (placeholders, markers, separators, key names,
+    # templates filled with small numbers), rendered with an indent: what the code treats specially must still be
+    # echoed and parse back unchanged
+    lits = core.source_literals()
+    ctx.notes["source_literal_passphrases"] = len(lits)
+    for j, lit in enumerate(lits if not q else lits[:8] + rng.sample(lits[8:], min(len(lits[8:]), 4))):
+        out.append(("Generate", {"mnemonic": T(MNEMONICS[j % 3] if j % 4 else lit), "password": T(lit), "net": "main", "account": 0,
+                                 "start": B((0).to_bytes(5, "big")), "end": B((2).to_bytes(5, "big")), "json": [4, 2, 1, True][j % 4]},
+                    ("generate-source-literal-passphrase",)))
     # wallets IMPORTED from a master extended private key of each of the six private flavours (x/y/z/t/u/v prv): the
     # three sections still carry THEIR purpose's flavour, whatever flavour the wallet came in
     from .. import refprims as R0, refwallet as W0
